@@ -265,3 +265,40 @@ func HarnessC11Immutable() {
 		vndAssert(held.Member(keys[i]).Value() == "v"+keys[i], "held-copy-unchanged")
 	}
 }
+
+// C11.dupatlimit (scaled limits): duplicate keys do not count against the member
+// limit and resolve to the last occurrence, also when the number of distinct
+// keys is exactly the limit
+func HarnessC11DupAtLimit() {
+	keys := []string{"a", "b", "c"}
+	n := 2 + vndChoice(3) // 2..4 list entries
+	hdr := ""
+	last := map[string]string{}
+	for i := 0; i < n; i++ {
+		k := keys[vndChoice(3)]
+		v := []string{"1", "2", "3", "4"}[i]
+		if i > 0 {
+			hdr += ","
+		}
+		hdr += k + "=" + v
+		last[k] = v
+	}
+	b, err := Parse(hdr)
+	if len(last) > maxMembers {
+		vndReach("too-many-distinct")
+		vndAssert(err != nil, "parse-succeeds-iff-within-the-three-limits")
+		return
+	}
+	if len(hdr) > maxBytesPerBaggageString {
+		return
+	}
+	vndReach("within")
+	vndAssert(err == nil, "duplicates-do-not-count-against-the-member-limit")
+	if err != nil {
+		return
+	}
+	vndAssert(b.Len() == len(last), "duplicate-keys-resolve-to-one-member")
+	for k, v := range last {
+		vndAssert(b.Member(k).Value() == v, "duplicate-keys-resolve-to-the-last")
+	}
+}
